@@ -58,6 +58,10 @@ def check_C09(run):
                            "whitespace variant of it); tokens are abutted only where the segmentation survives (GenTrees!CanAbut)")
     # parser level: redundant parentheses, whitespace and keyword-case vectors on generated trees
     checks_parser.trees_pipeline(run, "C09")
+    # ever deeper redundant parentheses (1..70 pairs) around the whole query, a field's value, an operand of NOT / OR / AND
+    pd = checks_parser.paren_depth_groups(os.path.join(run.work, "paren_depth.ndjson"))
+    resp, _, _ = checks_parser.stage_groups(run, pd, name="parse_paren_depth")
+    checks_parser.stage_judge_trees(run, resp, "C09", pd, name="judge_paren_depth")
     # lexer level: whitespace at real token boundaries and keyword case on arbitrary symbol sequences
     if run.tier == "quick":
         lexical_variants(run, "C09", 3, 4, 20000)
